@@ -6,7 +6,9 @@ from vlib.runner import Violation
 ID = "C12"
 LEVEL = "exploration"
 RULE = (
-    "stores of 1..10 traces (1..9 spans each, random parent arrays) under "
+    "stores of 1..10 traces (1..9 spans each, random parent arrays; in a "
+    "third of the stores the span ids contain punctuation - commas, quotes, "
+    "spaces, %, backslash, newline) under "
     "1..5 workflow names (drawn from a pool with names equal up to letter "
     "case, prefixes of each other, non-ASCII; names and trace ids chosen so "
     "that lexicographic and insertion orders disagree; in a quarter of the "
@@ -37,12 +39,13 @@ BATCHES = (1, 2, 3, 7, 1000)
 def spans_of(case):
     out = []
     ghosts = {tuple(g) for g in case.get("ghost", [])}
+    sep = case.get("idsep", "-")     # span ids are arbitrary strings
     for ti, (name, jid, parents, types) in enumerate(case["traces"]):
         for k, p in enumerate(parents):
             out.append(dict(
-                event_id=f"{jid}-{ti}s{k}",
+                event_id=f"{jid}{sep}{ti}s{k}",
                 parent=("ghost-" + jid if (ti, k) in ghosts and k > 0 else
-                        None if p is None else f"{jid}-{ti}s{p}"),
+                        None if p is None else f"{jid}{sep}{ti}s{p}"),
                 typ=types[k], job_id=jid, name=name,
                 start=1000 * ti + k, end=1000 * ti + k + 3))
     order = case.get("order")
@@ -211,6 +214,8 @@ def classify(case):
         classes.append("trace_id_shared_by_two_workflows")
     if case.get("ghost"):
         classes.append("trace_with_missing_parent")
+    if case.get("idsep"):
+        classes.append("span_ids_with_punctuation")
     if case.get("filter_names"):
         classes.append("filter_names")
     if case.get("id_map"):
@@ -266,6 +271,10 @@ def case_strategy():
                 "order": list(draw(st.permutations(list(range(total)))))}
         if ghost:
             case["ghost"] = ghost
+        sep = draw(st.sampled_from(["-", "-", "-", ",", ", ", " ", "%", "'",
+                                    '"', "\\", ";", "|", "\n"]))
+        if sep != "-":
+            case["idsep"] = sep      # composite ids: "host-1,0015" etc.
         mode = draw(st.integers(0, 3))
         present = sorted({t[0] for t in traces})
         if mode in (1, 3):
